@@ -114,8 +114,14 @@ func (l *listener) listenLoop() {
 				conn := newStreamWrapper(stream, stream.LocalAddr(), stream.RemoteAddr(), wg)
 				select {
 				case <-l.closeCh:
+					// nobody will ever Accept this conn: close it, otherwise its reference keeps the session open
+					_ = conn.Close()
 					return
 				case l.backlog <- conn:
+					// Close may have drained the backlog just before this send was chosen
+					if atomic.LoadUint32(&l.closed) == 1 {
+						l.drainBacklog()
+					}
 				}
 			}
 		}()
@@ -150,7 +156,20 @@ func (l *listener) Close() (err error) {
 	}
 	l.sessions = map[*Session]*sync.WaitGroup{}
 	l.mu.Unlock()
+	l.drainBacklog()
 	return
+}
+
+// drainBacklog closes the conns that nobody can Accept any more; each of them holds a reference on its session.
+func (l *listener) drainBacklog() {
+	for {
+		select {
+		case conn := <-l.backlog:
+			_ = conn.Close()
+		default:
+			return
+		}
+	}
 }
 
 // Addr is forwarded to the raw listener
